@@ -166,6 +166,15 @@ let model (e : env) (fields : string array) : string =
         [ estrs (lines t); estrs (split_lf t); estrs (split_crlf t); estrs (split_terminator_lf t);
           es (trim_end_sp t); es (trim t); es (trim_end t); dec_of_n (blen t);
           (if ends_with t [lF] then "1" else "0"); (if ends_with t [cR; lF] then "1" else "0") ]
+  | "api" ->
+      (* what the documentation says about defaults, builders, equality and the error text *)
+      let p = default_penalties in
+      let pens = String.concat ":" (List.map dec_of_n [p.p_nline; p.p_overflow; p.p_frac; p.p_short; p.p_hyphen]) in
+      let str_of s = es (List.map (fun c -> n_of_int (Char.code c)) (List.init (String.length s) (String.get s))) in
+      String.concat "\t"
+        ([ "1"; "1"; "1"; "1"; "1"; "0"; "17;a;_;_;1"; "1"; "1"; "1"; "9;a;3e.20;_;0"; "d.a" ]
+         @ (if f 1 = "min" then [ "1"; "1" ]
+            else [ pens; pens; "0"; "1"; "0"; "1"; "1"; "0"; "1"; str_of "wrap_optimal_fit cost computation overflowed" ]))
   | "ffx" | "ofx" | "ofu" -> "IMPL-ONLY"
   | op -> "UNKNOWN-OP " ^ op
 
